@@ -109,6 +109,11 @@ def probes(st, EC, sc, exp, tag):
     add("detach", EC["ENULLABUF"] if RO else 0)
     add("wait", EC["EINDEFINE"] if D else (0 if C else EC["EINDEP"]), coll=1, reqs="all")
     add("wait", EC["EINDEFINE"] if D else (0 if I else EC["ENOTINDEP"]), coll=0, reqs="all")
+    # the mode rules do not depend on how many requests are named: an empty list is checked like any other
+    add("wait", EC["EINDEFINE"] if D else (0 if C else EC["EINDEP"]), coll=1, reqs="none")
+    add("wait", EC["EINDEFINE"] if D else (0 if I else EC["ENOTINDEP"]), coll=0, reqs="none")
+    add("wait", EC["EINDEFINE"] if D else (0 if C else EC["EINDEP"]), coll=1, reqs="null,null")
+    add("wait", EC["EINDEFINE"] if D else (0 if I else EC["ENOTINDEP"]), coll=0, reqs="null")
     # --- sync family
     add("sync", EC["EINDEFINE"] if D else 0)
     add("sync_numrecs", EC["EINDEFINE"] if D else ({0, EC["EPERM"]} if RO else 0))     # nothing to write on a read-only file: either answer
